@@ -57,6 +57,9 @@ pub struct FuncInfo {
     pub plains: Vec<PlainInfo>,
     /// (instr idx of `unreachable`, mark immediately before it)
     pub unreachables: Vec<(u32, i32)>,
+    /// number of `return_call` exits generated
+    #[serde(default)]
+    pub tail_calls: u32,
 }
 
 #[derive(Clone, Debug, Default, PartialEq, Eq, Serialize, Deserialize)]
@@ -621,12 +624,23 @@ impl Em<'_> {
                 });
             }
             96..=97 => {
-                // return
+                // return, or a tail call to a callee with the same results
                 self.mark();
-                for t in self.results.clone() {
-                    self.expr_of(t);
+                let results = self.results.clone();
+                let tails: Vec<(u32, Vec<VT>, Vec<VT>)> = self.callees.iter().filter(|c| c.2 == results).cloned().collect();
+                if !tails.is_empty() && self.rng.chance(2, 5) {
+                    let (f, p, _) = self.rng.pick(&tails).clone();
+                    for t in &p {
+                        self.expr_of(*t);
+                    }
+                    self.out.push(Ins::ReturnCall(f));
+                    self.info.tail_calls += 1;
+                } else {
+                    for t in results {
+                        self.expr_of(t);
+                    }
+                    self.out.push(Ins::Return);
                 }
-                self.out.push(Ins::Return);
             }
             _ => {
                 // guarded unreachable
